@@ -70,6 +70,10 @@ func (r *numResult) merge(e *num.Engine, root string) {
 func newNumEngine(c *Ctx, sums map[*ssa.Function]*num.FnSummary) *num.Engine {
 	e := num.NewEngine(c.Prog.SPkg, c.Prog.CallGraph())
 	e.SpareOnReflectSet["packetBuffer"] = true
+	if c.Tier == "thorough" {
+		e.MaxSteps *= 4
+		e.MaxDepth += 2
+	}
 	for f, s := range sums {
 		e.Summaries[f] = s
 	}
